@@ -27,6 +27,7 @@ RULE = ('one evaluation = one seeded run: either 2-3 clients (shared object / ow
         'distinct = SHA-256 of the seam event log')
 RULE += ' ' + 'A quarter of the abort cases first make a block entry give up while it waits for a foreign write lock.'
 RULE += ' ' + 'One aborting block in eight forks a child process (which exits at once) from inside the block.'
+RULE += ' ' + 'A fifth of the aborting blocks are written as a function decorated once with transact() that calls itself for every step.'
 ASSUMPTIONS = ['FanoutCache blocks are additionally checked against the weaker per-shard-atomic model to tell the known finding F8 from any other failure']
 PROBES = ('blocks_committed', 'blocks_aborted', 'nested_block', 'abort_after_file_write', 'other_thread_timeout', 'lock_wait', 'entry_interrupted')
 TECHNIQUE = 'deterministic simulation: seeded schedules + raise-point injection; linearizability with blocks as atomic multi-step operations; before/after state comparison for aborts'
@@ -288,6 +289,8 @@ def gen_abort_case(rng, seed, target, mfs, big_n, keys):
         # child exits at once and never touches the cache
         body.insert(rng.randint(0, len(body)), {'op': 'realfork'})
     blk = {'op': 'txn', 'body': body}
+    if rng.random() < 0.2 and len(body) >= 2:
+        blk['style'] = 'decorated'
     if rng.random() < 0.8:
         blk['raise_at'] = rng.randint(0, len(body)); blk['raise_kind'] = rng.choice(('exc', 'base'))
     cfg = {'target': target, 'settings': {'disk_min_file_size': mfs}, 'kind': 'abort', 'shards': rng.choice((2, 3)),
